@@ -364,6 +364,16 @@ package server
 //@   call AppendMessageSet requires [current-epoch-only] p.isFollowing && p.LeaderEpoch == leaderEpoch
 //@   call AppendMessageSet requires [appends-at-the-end] offset >= ghost.newest + 1
 
+// becomeFollower ("any two replicas hold identical messages at every offset at or below both of their high
+// watermarks", for every leader change - also one that reaches a follower that keeps running): whoever starts following a
+// leader first reconciles its log with THAT leader - drops what the leader does not have - and only then starts to fetch;
+// what a former leader sent is not what the new one holds
+//@ ghost var reconciled bool
+//@ func (*partition).becomeFollower serves C02
+//@   assumes p != nil && p.srv != nil && p.srv.logger != nil
+//@   ghost at entry: ghost.reconciled := false
+//@   ghost after call truncateUncommitted: ghost.reconciled := ret0 == nil
+//@   call startGoroutine requires [C02:the-log-is-reconciled-with-the-new-leader-before-fetching-from-it] ghost.reconciled
 // truncateUncommitted: truncate to one past the offset the leader reported for this log's last epoch;
 // the HW fallback is taken only when the request failed
 //@ ghost var askedEpoch uint64
